@@ -363,6 +363,10 @@ func c07One(c *core.Ctx, r *gen.Rand, g c07Getter, length, posA, extraA int) {
 		sharedBefore = append([]ref.Attr{{Type: 0x8022, Value: []byte("sw")}}, sharedBefore...)
 	}
 	posB := r.Intn(3)
+	leadBits := byte(0)
+	if r.Chance(1, 4) {
+		leadBits = byte(1+r.Intn(3)) << 6
+	}
 	mk := func(twinA bool, pos int) ([]byte, int, int) {
 		var before, after []ref.Attr
 		fill := r.PickInt([]int{3, 0})
@@ -402,7 +406,19 @@ func c07One(c *core.Ctx, r *gen.Rand, g c07Getter, length, posA, extraA int) {
 			}
 		}
 		target := ref.Attr{Type: g.typ, Value: append([]byte(nil), value...)}
+		if g.kind == 0 && !twinA && r.Chance(1, 4) {
+			// a second, well-formed attribute of the same type further back: the first one is the one that is read
+			dup := ref.Attr{Type: g.typ, Value: append([]byte{0, byte(1 + r.Intn(2)), 0x12, 0x34}, r.Bytes(4)...)}
+			if dup.Value[1] == 2 {
+				dup.Value = append(dup.Value, r.Bytes(12)...)
+			}
+			if !g.addr {
+				dup.Value = r.Bytes(r.Intn(24))
+			}
+			after = append(after, dup)
+		}
 		wire, off := c07Wire(r, typ16, tid, before, target, after, fill, g.kind == 1)
+		wire[0] |= leadBits // the two most significant bits of the type field are not part of the type (both twins alike)
 
 		return wire, off, fill
 	}
